@@ -138,9 +138,56 @@ func c01TornEnum(c *Chooser, env *Env) *Outcome {
 	return o
 }
 
+// c01InitConfig runs `actionlint -init-config` in a generated repository, with and without a
+// full disk: a write failure is a fatal error (status 3), never a crash; success writes a file
+// that parses as a configuration.
+func c01InitConfig(c *Chooser, env *Env) *Outcome {
+	o := &Outcome{}
+	mw := GenMulti(c, GenOpts{MaxRepos: 1, MaxFiles: 1})
+	w := mw.World
+	w.API = APIMain
+	root := mw.Repos[0].Root
+	w.Cwd = []string{root, root + "/.github/workflows", "/"}[c.Int("world.cwd", 3)]
+	w.Args = []string{"-init-config"}
+	target := root + "/.github/actionlint.yaml"
+	full := c.Bool("fault.enospc")
+	if full {
+		w.Faults = []kern.Fault{{Kind: kern.FWriteNoSpc, Path: target}}
+	}
+	o.World = w
+	res := RunLint(w, c, RunOpts{KeepTrace: env.KeepTrace})
+	o.addRun(res.K)
+	o.Nontrivial = res.K.FaultsFired[kern.FWriteNoSpc] > 0
+	o.Sig = w.Hash()
+	o.Sample = map[string]any{"mode": "-init-config", "cwd": w.Cwd, "disk_full": full, "exit": res.Exit, "stderr": firstLine(res.Stderr)}
+	if v := c01Invariants(res, fmt.Sprintf("write-enospc=%v", full)); v != nil {
+		o.V = v
+		return o
+	}
+	if res.K.FaultsFired[kern.FWriteNoSpc] > 0 && (res.Exit != 3 || strings.TrimSpace(res.Stderr) == "") {
+		o.V = &Violation{Oracle: "io-fault-is-fatal", Class: "write-failure-not-fatal",
+			Message: fmt.Sprintf("writing the default configuration failed (no space left on device) but the exit status is %d (stderr %q)", res.Exit, firstLine(res.Stderr))}
+		return o
+	}
+	if res.Exit == 0 {
+		b, ok := res.K.Written[target]
+		if !ok {
+			o.V = &Violation{Oracle: "init-config", Class: "config-not-written", Message: "-init-config exited with status 0 but did not write " + target}
+			return o
+		}
+		if _, err := FreshConfigFingerprint(string(b)); err != nil {
+			o.V = &Violation{Oracle: "init-config", Class: "generated-config-invalid", Message: "the generated default configuration does not parse: " + err.Error()}
+		}
+	}
+	return o
+}
+
 func (c01) Eval(c *Chooser, env *Env) *Outcome {
 	if env.Variant == "tornenum" {
 		return c01TornEnum(c, env)
+	}
+	if env.Variant == "" && c.Weighted("world.initconfig", 1, 40) {
+		return c01InitConfig(c, env)
 	}
 	o := &Outcome{}
 	opts := GenOpts{Ties: true, Clone: true, Corpus: true, Projects: true, Defective: true, Loose: true, SelfArg: true, PathConfigs: true, MaxRepos: 2, MaxFiles: 3}
